@@ -40,7 +40,9 @@ def make_grid(spec: dict):
 
 
 def grid_dim(spec: dict) -> int:
-    return {"cart": len(spec.get("shape", [])), "cyl": 3, "polar": 2, "sph": 3}[spec["kind"]]
+    if spec["kind"] == "cart":
+        return len(spec["shape"])
+    return {"cyl": 3, "polar": 2, "sph": 3}[spec["kind"]]
 
 
 def random_cart_grid(rng: random.Random, dim: int | None = None, max_cells: int = 1600,
